@@ -14,15 +14,15 @@ Payees == {"Grocery Shop", "給料"}
 \* (a is the amount with the fee taken out: the statement's quantity column is what was bought or sold)
 SecFor(c, a, rt) == IF rt = NoRate THEN NoD
                     ELSE IF c \in {"extract_pop", "compute_pop"} THEN DecMul(DecAbs(a), rt.r) ELSE DecMul(DecAbs(a), rt.inv)
-Row(c, day, p, a, rt, note, chg) ==
-  [day |-> day, payee |-> p, amt |-> a, rate |-> rt, sec |-> SecFor(c, IF chg = NoD THEN a ELSE DecAdd(a, chg), rt), note |-> note, chg |-> chg]
+Row(c, day, p, a, rt, note, chg, cm) ==
+  [day |-> day, payee |-> p, amt |-> a, rate |-> rt, sec |-> SecFor(c, IF chg = NoD THEN a ELSE DecAdd(a, chg), rt), note |-> note, chg |-> chg, cmdt |-> cm]
 Charges == {NoD, D(0, 2), D(100, 2)}
 
-Cfgs == {[atype |-> at, cols |-> cols, layout |-> lay, delim |-> dl, skip |-> sk, datefmt |-> df, order |-> ord, balance |-> bal, conv |-> cv, ruleconv |-> rc, charge |-> ch] :
+Cfgs == {[atype |-> at, cols |-> cols, layout |-> lay, delim |-> dl, skip |-> sk, datefmt |-> df, order |-> ord, balance |-> bal, conv |-> cv, ruleconv |-> rc, charge |-> ch, cmdtcol |-> cc] :
            at \in {"asset", "liability"}, cols \in {"amount", "creditdebit"}, lay \in {"index", "label", "template"}, dl \in {",", ";"},
            sk \in {0, 2, 3}, df \in {"%Y-%m-%d", "%d.%m.%Y"}, ord \in {"old_to_new", "new_to_old"}, bal \in BOOLEAN,
            cv \in {"none", "extract_pos", "compute_pos", "extract_pop", "compute_pop", "disabled"}, rc \in {"none", "disabled", "commodity"},
-           ch \in {"none", "column"}}
+           ch \in {"none", "column"}, cc \in BOOLEAN}
 
 \* pairwise-ish reduction for the quick tier: every value of every dimension with the conversion and order dimensions crossed fully
 Reduced(c) == \/ (c.delim = "," /\ c.skip = 0 /\ c.datefmt = "%Y-%m-%d")
@@ -34,17 +34,20 @@ MCInit ==
                              /\ (c.ruleconv = "disabled" => c.conv \in {"extract_pos", "compute_pop"} /\ c.layout = "label")
                              /\ (c.ruleconv = "commodity" => c.conv \in {"extract_pos", "compute_pos", "extract_pop"} /\ c.layout = "index")
                              \* a charge column: every conversion mode, both account types and column kinds, with and without a balance column
+                             \* a commodity column (multi-currency account): rows in either commodity, no conversion, with and without the balance column
+                             /\ (c.cmdtcol => c.conv = "none" /\ c.ruleconv = "none" /\ c.charge = "none" /\ c.layout \in {"label", "index"} /\ c.delim = "," /\ c.skip = 0 /\ c.datefmt = "%Y-%m-%d")
                              /\ (c.charge = "column" => c.ruleconv = "none" /\ c.layout = "label" /\ c.order = "old_to_new" /\ c.conv # "disabled")}
   /\ opening \in {D(0, 0), D(50000, 2)}
   /\ \E n \in 1..MaxRows :
-       \E as \in [1..n -> Amounts], rts \in [1..n -> {NoRate, Rate2, RateHalf}], chs \in [1..n -> Charges] :
+       \E as \in [1..n -> Amounts], rts \in [1..n -> {NoRate, Rate2, RateHalf}], chs \in [1..n -> Charges], cms \in [1..n -> {Primary, OtherCommodity}] :
+         /\ (~cfg.cmdtcol => \A k \in 1..n : cms[k] = Primary)
          /\ (cfg.charge = "none" => \A k \in 1..n : chs[k] = NoD)
          /\ (cfg.charge = "column" => /\ \E k \in 1..n : chs[k] \notin {NoD, D(0, 2)}
                                        /\ opening = D(50000, 2)
                                        /\ (MaxRows <= 2 => \A j \in 1..n : as[j] \in {D(-200, 2), D(1050, 2)}))
          /\ (cfg.conv = "none" => \A k \in 1..n : rts[k] = NoRate)
          /\ (cfg.ruleconv = "commodity" => \A k \in 1..n : rts[k] # NoRate)      \* a rule's conversion needs a rate on every row it matches
-         /\ rows = [k \in 1..n |-> Row(cfg.conv, k, IF k % 2 = 1 THEN "Grocery Shop" ELSE "給料", as[k], rts[k], IF k = 2 THEN "a note" ELSE "", chs[k])]
+         /\ rows = [k \in 1..n |-> Row(cfg.conv, k, IF k % 2 = 1 THEN "Grocery Shop" ELSE "給料", as[k], rts[k], IF k = 2 THEN "a note" ELSE "", chs[k], cms[k])]
 MCNext == UNCHANGED <<cfg, rows, opening>>
 MCSpec == MCInit /\ [][MCNext]_<<cfg, rows, opening>>
 
@@ -54,6 +57,7 @@ DecJson(d) == IF d = NoD THEN [m |-> 0, s |-> -1] ELSE d
 Emit == PrintT(<<"REPLAY", ToJson([module |-> "ImportCsv", cfg |-> cfg, opening |-> opening, head |-> HeadOf(cfg.skip),
                                    file_rows |-> [k \in 1..Len(rows) |-> FileOrder(cfg, rows)[k]],
                                    shown |-> [k \in 1..Len(rows) |-> ShownAmount(cfg, FileOrder(cfg, rows)[k])],
-                                   running |-> [k \in 1..Len(rows) |-> RunningAt(rows, k, opening)],
+                                   running |-> [k \in 1..Len(rows) |-> RunningAtC(cfg, rows, k, opening)],
+                                   final |-> [c \in {Primary, OtherCommodity} |-> RunningIn(cfg, rows, Len(rows), opening, c)],
                                    expect |-> Expected(cfg, rows, opening)])>>)
 =============================================================================
